@@ -114,7 +114,8 @@ def make_ext_modules(I):
       ceil=F('math.ceil', N.py_ceil), fabs=F('math.fabs', lambda I, x: I.builtins['abs'].fn(I, x)),
       isfinite=F('math.isfinite', N.np_isfinite), isnan=F('math.isnan', N.np_isnan), inf=float('inf'), nan=float('nan'),
       atan2=F('math.atan2', N.np_arctan2), radians=F('math.radians', lambda I, x: I.binop('/', I.binop('*', x, N.PI), 180)),
-      degrees=F('math.degrees', lambda I, x: I.binop('/', I.binop('*', x, 180), N.PI)))
+      degrees=F('math.degrees', lambda I, x: I.binop('/', I.binop('*', x, 180), N.PI)),
+      asin=F('math.asin', lambda I, x: _uf_real('asinf', x)), acos=F('math.acos', lambda I, x: _uf_real('acosf', x)))
 
     # ---- operator
     def opf(op):
@@ -242,6 +243,12 @@ def make_ext_modules(I):
     from . import prims
     mods['vprim'] = prims.make(I)
     return mods
+
+
+def _uf_real(name, x):
+    """an uninterpreted real function (only congruence is known): used by the kernels' exact-area code, which is not verified"""
+    f = z3.Function(name, z3.RealSort(), z3.RealSort())
+    return mk(f(zreal(x)), 'real')
 
 
 def _unsup(msg):
